@@ -394,6 +394,47 @@ pub struct ServerSnapshot<const S: usize> {
     pub tasks: usize,
 }
 
+/// Plain-data view of a `ToBehaviourEvent` (what a connection handler tells the behaviour).
+#[derive(Debug, Clone)]
+pub enum VHandlerEvent<const S: usize> {
+    IncomingMessage {
+        peer: PeerId,
+        has_client: bool,
+        presences: Vec<(CidGeneric<S>, BlockPresenceType)>,
+        blocks: Vec<(CidGeneric<S>, Vec<u8>)>,
+        wantlist: Option<ProtoWantlist>,
+    },
+    NewBlocksAvailable(Vec<(CidGeneric<S>, Vec<u8>)>),
+    SendingStateChanged(PeerId, SendingState),
+    ClientClosingConnection(PeerId, ConnectionId),
+}
+
+/// Describe a handler event without consuming it.
+pub fn describe_handler_event<const S: usize>(ev: &ToBehaviourEvent<S>) -> VHandlerEvent<S> {
+    match ev {
+        ToBehaviourEvent::IncomingMessage(peer, msg) => VHandlerEvent::IncomingMessage {
+            peer: *peer,
+            has_client: msg.client.is_some(),
+            presences: msg
+                .client
+                .as_ref()
+                .map(|c| c.block_presences.iter().map(|(k, v)| (*k, *v)).collect())
+                .unwrap_or_default(),
+            blocks: msg
+                .client
+                .as_ref()
+                .map(|c| c.blocks.iter().map(|(k, v)| (*k, v.clone())).collect())
+                .unwrap_or_default(),
+            wantlist: msg.server.as_ref().map(|s| s.wantlist.clone()),
+        },
+        ToBehaviourEvent::NewBlocksAvailable(b) => VHandlerEvent::NewBlocksAvailable(b.clone()),
+        ToBehaviourEvent::SendingStateChanged(p, s) => VHandlerEvent::SendingStateChanged(*p, *s),
+        ToBehaviourEvent::ClientClosingConnection(p, c) => {
+            VHandlerEvent::ClientClosingConnection(*p, *c)
+        }
+    }
+}
+
 /// Drive and observe a whole `Behaviour` through its `NetworkBehaviour` entry points.
 pub struct VNode;
 
